@@ -304,6 +304,19 @@ def rule_m3(F, res):
                     "ErasedList is expected to be exactly Arc<Mutex<RawList>>; found %s" % tys)
 
 
+def rule_m4(F):
+    """A length that bounds an element loop is read in the same critical section as the loop (otherwise a concurrent push makes
+    the loop index past the shorter list: unwrap on None inside extern "C" code, or a read outside the buffer) - C15.M6 under C16's id."""
+    from . import c15
+    r0 = c15.rule_m6(F)
+    r = RuleResult("C16.M4", "lengths that bound an element loop over two lists are read under the locks the loop holds", floor=1)
+    r.instances, r.samples, r.anchor_missing = list(r0.instances), list(r0.samples), list(r0.anchor_missing)
+    for v in r0.violations:
+        v.rule = "C16.M4"
+        r.violations.append(v)
+    return r
+
+
 def rules(ctx):
     F = ctx["F"]
     bodies = [b for b in F.all_bodies() if b.mir]
@@ -313,7 +326,7 @@ def rules(ctx):
     rule_m2(F, m2)
     m3 = RuleResult("C16.M3", "RawList's unsafe Send/Sync covers only the owned buffer pointer; ErasedList = Arc<Mutex<RawList>>", floor=5)
     rule_m3(F, m3)
-    return [m1, m2, m3]
+    return [m1, m2, m3, rule_m4(F)]
 
 
 def canary(C):
